@@ -223,6 +223,62 @@ def check(ctx):
     if len(shapes) < 8:
         raise core.Machinery("vacuity: only %d table shapes enumerated" % len(shapes))
     functional.run_cases(ctx, "tables", cases, run_chunk, sig_fn, chunk=100)
+    check_big(ctx)
+
+
+# ---------------------------------------------------------------------------
+# "any number of processes": a deep chain and a wide litter
+# ---------------------------------------------------------------------------
+
+def _big(job):
+    shape, n = job
+    w, ps = template()
+    for p in list(w.procs):
+        if p != w.caller_pid:
+            del w.procs[p]
+    w.spawn(1, ppid=0, start=1)
+    w.spawn(10, ppid=1, start=5 * TICK)
+    if shape == "chain":          # 10 <- 1000 <- 1001 <- ...
+        for k in range(n):
+            w.spawn(1000 + k, ppid=(10 if k == 0 else 999 + k), start=(6 + k // 50) * TICK)
+        want_children, want_desc = [1000], list(range(1000, 1000 + n))
+    else:                          # n children of 10, each with one child
+        for k in range(n):
+            w.spawn(1000 + k, ppid=10, start=6 * TICK)
+            w.spawn(100000 + k, ppid=1000 + k, start=7 * TICK)
+        want_children = list(range(1000, 1000 + n))
+        want_desc = want_children + list(range(100000, 100000 + n))
+    p = ps.Process(10)
+    bad = []
+    try:
+        got = sorted(c.pid for c in bounded(p.children))
+        if got != want_children:
+            bad.append("children() -> %d processes (%r...), specification: %d" % (len(got), got[:3], len(want_children)))
+        got = sorted(c.pid for c in bounded(lambda: p.children(recursive=True)))
+        if got != sorted(want_desc):
+            bad.append("children(recursive=True) -> %d processes, specification: %d" % (len(got), len(want_desc)))
+        deep = ps.Process(1000 + n - 1)
+        chain = [x.pid for x in bounded(deep.parents)]
+        exp = (list(range(998 + n, 999, -1)) + [10, 1]) if shape == "chain" else [10, 1]
+        if chain != exp:
+            bad.append("parents() of the deepest process -> %d ancestors, specification: %d" % (len(chain), len(exp)))
+    except Hang:
+        bad.append("a tree walk did not return within %d s" % BUDGET)
+    except BaseException as ex:  # noqa: BLE001
+        bad.append("raised %s: %s" % (type(ex).__name__, str(ex)[:120]))
+    return bad
+
+
+def check_big(ctx):
+    jobs = [("chain", 1500), ("chain", 3000), ("litter", 2000)]
+    res = forkpool.map_fork(_big, jobs, timeout=600)
+    for job, (st, val) in zip(jobs, res):
+        if st != "ok":
+            raise core.Machinery("big-table worker failed: %s" % (val,))
+        ctx.case(("big",) + job)
+        if val:
+            ctx.disagree("conf:big:%s" % job[0], "%s of %d processes: %s" % (job[0], job[1], "; ".join(val)), {"big": list(job)})
+    ctx.cov.setdefault("replay", {})["big-tables"] = {"tables": len(jobs), "largest": 4001}
 
 
 def main(prop, argv):
